@@ -365,7 +365,7 @@ func (w *SrvWorld) checkE2ETCP() {
 	clean := w.cleanForExpectations()
 	w.e2eMu.Lock()
 	defer w.e2eMu.Unlock()
-	for _, rc := range w.Real {
+	for _, rc := range w.realClients() {
 		if rc.TAlloc == nil {
 			continue
 		}
